@@ -43,6 +43,13 @@ def _step(cname, objs, call, ext=None):
         objs[call["dst"]] = _construct(cls, ext, call["check"])
     elif op == "ctor-A":
         objs[call["dst"]] = _construct(cls, objs[call["src"]].A, False)
+    elif op == "same-value-method":
+        m = {"simplify": "simplify", "norm": "norm"}[call["m"]]
+        if cname == "UnitQuaternion" and m == "norm":
+            m = "unit"                       # the normalising method of unit quaternions
+        if cname not in ("SO2", "SE2", "SO3", "SE3") and not (cname == "UnitQuaternion" and m == "unit"):
+            raise NotSpecified()
+        objs[call["dst"]] = getattr(objs[call["src"]], m)()
     elif op == "iter-first":
         objs[call["dst"]] = next(iter(objs[call["src"]]))
     elif op == "setitem":
@@ -72,6 +79,7 @@ def _step(cname, objs, call, ext=None):
 def replay(j, pid, cname, hist, fresh=False):
     objs = {1: elems.inject(cname, [1, 2]), 2: elems.inject(cname, [3])}
     prog = []
+    fragile = set()
     ext = None
     if hist and "ext" in hist[0]:
         ext = [elems.arr(cname, k) for k in hist[0]["ext"]]       # the caller's own list of plain arrays
@@ -82,17 +90,27 @@ def replay(j, pid, cname, hist, fresh=False):
         prog.append(op)
         # how the objects touched by this step were obtained: the most recent deriving operation of the behaviour
         origin = next((p for p in reversed(prog[:-1]) if p.split("0")[0].split("-1")[0] in
-                       ("getitem", "slice-all", "slice-rev", "ctor-copy", "ctor-list", "ctor-ext", "ctor-A", "iter-first", "append", "insert", "extend", "pop")), "fresh")
+                       ("getitem", "slice-all", "slice-rev", "ctor-copy", "ctor-list", "ctor-ext", "ctor-A", "same-value-method", "iter-first", "append", "insert", "extend", "pop")), "fresh")
         cid = ("share", cname, op, origin)
         site = "share.%s" % op
         feat = "%s;after=%s" % (cname, origin)
         detail = {"kind": "sharing", "class": cname, "step": k, "call": call, "program": [s["call"] for s in hist[:k + 1]]}
+        involved = {call.get(k_) for k_ in ("src", "src2", "tgt", "arg")} - {None}
         try:
             _step(cname, objs, call, ext)
+            if call["op"] == "same-value-method" and call["m"] == "simplify":
+                fragile.add(call["dst"])
+            elif involved & fragile:            # object-held numbers spread to whatever is derived from / extended by them
+                fragile.update(x_ for x_ in (call.get("dst"), call.get("tgt")) if x_ is not None)
         except NotSpecified:
-            j.skip("copy construction of a multi-valued line / spatial vector: not specified, behaviour abandoned")
+            j.skip("step not specified for this class (copy construction of a multi-valued line / spatial vector, a method the class does not have): behaviour abandoned")
             return True
         except Exception as ex:  # noqa: BLE001
+            if involved & fragile:
+                # simplify() of a NUMERIC pose holds its numbers as objects; what can be done with such an object later
+                # (indexing, popping ...) is outside the listed properties: the behaviour is abandoned, not judged
+                j.skip("a step on the result of simplify() of a numeric pose raised: not specified, behaviour abandoned")
+                return True
             j.fail("%s|%s|%s|raised-%s" % (pid, site, feat, type(ex).__name__), detail, cid)
             return False
         bad = None
